@@ -154,7 +154,7 @@ def run_rt(spec, acc):
         return 1 if (L is None or L < 0) else None
 
     def check_routine_send(i, rec, sends):
-        sid, cname, t, p0, p1, cap, exc = rec
+        sid, cname, t, p0, p1, cap, exc, t_ind = rec
         kind, pristine = sends[sid]
         acc.count('rt_routine_sends')
         acc.count(f'rt_routine_sends/{cname}')
@@ -200,6 +200,30 @@ def run_rt(spec, acc):
                  'return_time': p1, 'expected_timetag': exp,
                  'decoded_timetag': got,
                  'difference_seconds': (got - exp) / TWO32})
+        if t_ind is not None:
+            # independent expectation: exact on SystemClock (the scheduled
+            # time is the float handed to sched_abs plus the same float
+            # additions), 1e-9 s = 5 timetag units through a TempoClock's
+            # beats -> seconds map
+            tol = 0 if cname == 'SystemClock' else 5
+            for where, L, got in tt_walk(dec, pristine, kind):
+                if L is None or L < 0:
+                    continue
+                exp = int((L + t_ind) * TWO32) + off
+                acc.count('rt_independent_timetags_compared')
+                acc.count(f'rt_independent_timetags_compared/{cname}')
+                if abs(got - exp) > tol:
+                    acc.violation(
+                        'C07/rt/timetag-differs-from-independent-expectation/'
+                        + cname,
+                        {'case': i, 'clock': cname, 'send': M.srepr(pristine),
+                         'where': where, 'latency': L,
+                         'expected_logical_time': t_ind,
+                         'logical_time_reported_by_clock': t,
+                         'physical_call_time': p0,
+                         'expected_timetag': exp, 'decoded_timetag': got,
+                         'difference_seconds': (got - exp) / TWO32})
+                    break
         acc.case(h64((cname, M.srepr(pristine))),
                  nontrivial=ncomp > 0 and late > 1e-4)
         if acc.want_sample() and ncomp > 1 and late > 1e-3:
@@ -293,10 +317,10 @@ def run_rt(spec, acc):
         events = []
         stuck = 0
 
-        def make_body(cname, clock, steps, ev):
+        def make_body(cname, clock, steps, ev, texp=None):
             def body():
                 try:
-                    for sid, kind, lst, slp, delta in steps:
+                    for n, (sid, kind, lst, slp, delta) in enumerate(steps):
                         if slp:
                             time.sleep(slp)       # holds the main lock
                         t = clock.seconds
@@ -309,7 +333,8 @@ def run_rt(spec, acc):
                             exc = e
                         p1 = main.elapsed_time()
                         tls.cap = None
-                        records.append((sid, cname, t, p0, p1, cap, exc))
+                        records.append((sid, cname, t, p0, p1, cap, exc,
+                                        texp[n] if texp else None))
                         yield delta
                 finally:
                     ev.set()
@@ -345,6 +370,60 @@ def run_rt(spec, acc):
                 ev = threading.Event()
                 events.append(ev)
                 Routine(make_slow(sleeps, ev)).play(SystemClock)
+            # ---- routines with an INDEPENDENT expectation of their logical
+            # time: started with sched_abs at known times / beats, yielding
+            # known deltas, so the n-th send happens at logical
+            # start + sum(deltas) whatever the library reports.  Start times
+            # are equal, close together and partly in the past; a slow task
+            # and a plain thread holding the main lock make several of them
+            # due in the same wake-up cycle of the clock thread.
+            T0 = main.elapsed_time() + 0.04
+            atempo = rng.choice([0.5, 1, 2, 3.7, 8])
+            aclock = TempoClock(atempo, 0.0, T0)
+            tclocks.append((aclock, atempo))
+            offs = [-0.02, 0.0, 0.0, 0.004, 0.004, 0.009, 0.013, 0.02, 0.035]
+            for kind_c in ['SystemClock'] * rng.randint(3, 6) + \
+                    ['TempoClock'] * rng.randint(2, 4):
+                start = rng.choice(offs)
+                steps, texp = [], []
+                if kind_c == 'SystemClock':
+                    t_log = T0 + start            # what sched_abs is given
+                else:
+                    beat = start * atempo
+                for n in range(rng.randint(2, 5)):
+                    sid = next(sids)
+                    kind, lst = G.gen_send(rng, sid, p_bundle=0.9)
+                    sends[sid] = (kind, G.clone(lst))
+                    dsec = rng.choice([0, 0.003, 0.003, 0.007, 0.02])
+                    slp = rng.choice([0, 0, 0, 0.001, rng.uniform(0.02, 0.1)
+                                      if n == 0 else 0.004])
+                    if kind_c == 'SystemClock':
+                        texp.append(t_log)
+                        steps.append((sid, kind, lst, slp, dsec))
+                        t_log = t_log + dsec      # SystemClock: one float add
+                    else:
+                        texp.append(T0 + beat / atempo)
+                        steps.append((sid, kind, lst, slp, dsec * atempo))
+                        beat = beat + dsec * atempo
+                ev = threading.Event()
+                events.append(ev)
+                if kind_c == 'SystemClock':
+                    SystemClock.sched_abs(texp[0], Routine(make_body(
+                        kind_c, SystemClock, steps, ev, texp)))
+                else:
+                    aclock.sched_abs(start * atempo, Routine(make_body(
+                        kind_c, aclock, steps, ev, texp)))
+
+            def locker(at, dur):
+                while main.elapsed_time() < at:
+                    time.sleep(0.0005)
+                with main._main_lock:
+                    time.sleep(dur)       # every clock thread is kept out
+            for _ in range(rng.randint(1, 2)):
+                threading.Thread(
+                    target=locker, daemon=True,
+                    args=(T0 + rng.choice([-0.004, 0.0, 0.01]),
+                          rng.uniform(0.02, 0.06))).start()
             # sends from the main thread while the clocks run
             deadline = time.time() + 15
             n = 0
@@ -417,6 +496,16 @@ def run_rt(spec, acc):
         for rec in list(records):
             info[rec[0]] = (rec[2], rec[3])
             check_routine_send(i, rec, sends)
+        # evidence that ready tasks with different scheduled times were run
+        # in one wake-up cycle: a wake-up on SystemClock whose scheduled time
+        # had already passed when the previous SystemClock wake-up (of a
+        # task scheduled for another time) started
+        prev = None
+        for rec in sorted((r for r in records if r[7] is not None
+                           and r[1] == 'SystemClock'), key=lambda r: r[3]):
+            if prev is not None and rec[7] != prev[7] and rec[7] <= prev[3]:
+                acc.count('rt_independent_wakeups_batched_with_other_times')
+            prev = rec
         for rec in mrecords:
             info[rec[0]] = (None, rec[2])
             check_main_send(i, rec, sends)
